@@ -254,6 +254,11 @@ func genC18Seq(t *rapid.T) c18SeqCase {
 	for i := range c.Gaps {
 		c.Gaps[i] = rapid.OneOf(rapid.Uint64Range(1, 3), rapid.Uint64Range(1, 1<<20)).Draw(t, "gap")
 	}
+	// version numbers are any 64-bit numbers: now and then the list starts just below 2^63, at 2^63 or
+	// near the end of the range (2^34 below it, so that everything pushed later still fits)
+	if n > 0 && rapid.IntRange(0, 5).Draw(t, "highBase") == 0 {
+		c.Gaps[0] = rapid.SampledFrom([]uint64{1 << 62, 1<<63 - 2, 1 << 63, 1<<63 + 1, ^uint64(0) - 1<<34}).Draw(t, "base")
+	}
 	nops := rapid.IntRange(1, 60).Draw(t, "nops")
 	for i := 0; i < nops; i++ {
 		k := rapid.SampledFrom([]string{"push", "push", "popf", "popb", "collect", "collect", "probe", "probe", "probe", "latest"}).Draw(t, "kind")
